@@ -293,6 +293,27 @@ def zero_modulo_facts(d, facts):
     return False
 
 
+def path_sign_mod(it, expr):
+    """path_sign, also using the path's exact-zero facts linearly: expr +- f1 +- f2 for zero facts f (e.g. start == 0 and end == 0 known
+    separately imply start - end == 0)"""
+    import itertools
+    expr = to_rat(expr)
+    s = path_sign(it, expr)
+    if s != frozenset('-0+'):
+        return s
+    facts = path_zero_facts(it)[:8]
+    for n in (1, 2):
+        for fs in itertools.combinations(facts, n):
+            for cs in itertools.product((1, -1), repeat=n):
+                e2 = expr
+                for c, f in zip(cs, fs):
+                    e2 = e2 + f * c
+                s = path_sign(it, e2)
+                if s != frozenset('-0+'):
+                    return s
+    return frozenset('-0+')
+
+
 def check_isclose_definition(ctx, rule):
     """misctools.isclose(a, b, rtol, atol) is the test |a - b| < atol + rtol*|b| (the numpy.isclose predicate the package documents)"""
     mdl = ctx.model
